@@ -439,6 +439,59 @@ func runWtSchedule(s wtSched, seed int64) *wtOutcome {
 		if !ok || !e.expectExpiry(c, start, class, state) {
 			return o
 		}
+	case "older-plain-waiter", "older-timed-waiter":
+		// another goroutine is already parked on the same Cond (a plain Wait, or a WaitTimeout
+		// with a much longer timeout); nobody signals: the timeout bound must still hold
+		olderGone := make(chan struct{})
+		var older *wtCall
+		if class == "older-plain-waiter" {
+			entered := make(chan int64, 1)
+			go func() {
+				L.Lock()
+				entered <- L.unlocks.Load()
+				e.cond.Wait()
+				L.Unlock()
+				close(olderGone)
+			}()
+			u := <-entered
+			dl := time.Now().Add(10 * time.Second)
+			for L.unlocks.Load() < u+1 {
+				if time.Now().After(dl) {
+					o.Inconclusive = "wait-not-observed"
+					return o
+				}
+				time.Sleep(200 * time.Microsecond)
+			}
+		} else {
+			older = startCall(L, e.cond, wtLongMs)
+			if _, ok := e.awaitEnter(older); !ok {
+				return o
+			}
+			if !e.awaitWaiting(older) {
+				e.cleanup(older)
+				return o
+			}
+		}
+		o.logf("an older waiter (%s) is parked on the Cond", class)
+		c := startCall(L, e.cond, s.TimeoutMs)
+		start, ok := e.awaitEnter(c)
+		good := ok && e.expectExpiry(c, start, class, state)
+		// release the older waiter
+		if older != nil {
+			e.cleanup(older)
+		} else {
+			for i := 0; i < 200; i++ {
+				e.cond.Broadcast()
+				select {
+				case <-olderGone:
+					i = 1000
+				case <-time.After(20 * time.Millisecond):
+				}
+			}
+		}
+		if !good {
+			return o
+		}
 	case "signal-at-timeout":
 		c := startCall(L, e.cond, s.TimeoutMs)
 		start, ok := e.awaitEnter(c)
@@ -580,7 +633,7 @@ func runWtSchedule(s wtSched, seed int64) *wtOutcome {
 	return o
 }
 
-var wtClasses = []string{"none", "signal-before", "signal-during", "signal-at-timeout", "signal-after-timeout", "broadcast-during", "storm"}
+var wtClasses = []string{"none", "signal-before", "signal-during", "signal-at-timeout", "signal-after-timeout", "broadcast-during", "storm", "older-plain-waiter", "older-timed-waiter"}
 
 func wtSchedules(r *core.Run) []wtSched {
 	rng := core.NewRng(r.Seed, "c16-wt-schedules")
